@@ -110,6 +110,7 @@ inductive Exc
   | typeError           -- `scputimes(*fields)` with the wrong number of values
   | attributeError      -- `times.idle` on a tuple without that field
   | zeroDivisionError   -- `/ CLOCK_TICKS` with CLOCK_TICKS = 0 (never on a real host)
+  | noSuchProcess       -- `self._proc.cpu_times()` of `Process.cpu_percent` when `/proc/<pid>/stat` is gone
   deriving DecidableEq, Repr
 
 abbrev PRes := Except Exc
@@ -454,6 +455,9 @@ structure PCall where
   ncpuRaw : Option Int                 -- what `cpu_count_logical()` returns
   timer : List Rat                     -- successive values of `_timer()`
   times : List (Nat × Nat)             -- successive (utime, stime) tick counts in /proc/<pid>/stat
+  /-- `some k`: the process is gone when this call reads `/proc/<pid>/stat` for the (k+1)-th time
+      (`self._proc.cpu_times()` raises NoSuchProcess there); `none`: it stays alive -/
+  vanishAt : Option Nat := none
   deriving Repr
 
 inductive POut
@@ -477,6 +481,13 @@ def PCall.negative (c : PCall) : Bool :=
   | some i => decide (i < 0)
   | none => false
 
+/-- does one of the `self._proc.cpu_times()` reads this call really performs find the process gone?
+    (a blocking call reads twice — before and after the sleep —, a non-blocking call once) -/
+def PCall.vanishes (c : PCall) : Bool :=
+  match c.vanishAt with
+  | some k => if c.blocking then decide (k ≤ 1) else decide (k = 0)
+  | none => false
+
 def procSecs (tck : Nat) (ticks : Nat) : Rat := (ticks : Rat) / (tck : Rat)
 
 /-- what a call remembers as its time stamp: `timer()` = `_timer() * num_cpus` (as found) or the
@@ -492,6 +503,7 @@ def procFinish (c : Cfg) (n : Rat) (a b : PLast) : Rat :=
 
 def pstep (c : Cfg) (tck : Nat) (s : PSt) (p : PCall) : PSt × POut :=
   if p.negative then (s, .exc .valueError)
+  else if p.vanishes then (s, .exc .noSuchProcess)   -- raised between `st = _timer()` and the two stores: nothing is remembered
   else
     let n := numCpus p.ncpuRaw
     if p.blocking then
